@@ -105,7 +105,7 @@ pub mod common {
                         // namely the one declared under that wire name
                         for (k, v) in ps {
                             let declared = d["params"].as_array().unwrap().iter().find(|p| {
-                                let wn = if p["rename"].as_str().unwrap().is_empty() { p["name"].as_str().unwrap() } else { p["rename"].as_str().unwrap() };
+                                let wn = if p["rename"].as_str().unwrap().is_empty() { p["name"].as_str().unwrap().trim_start_matches("r#") } else { p["rename"].as_str().unwrap() };
                                 wn == k
                             });
                             match declared {
